@@ -230,6 +230,27 @@ def w_module(arg):
                                           "replay": {"fn": "harness.checks.c17:w_module", "arg": {"rules": [[mod, name]], "bodies": [bodies[i]]}}})
                 continue
             res["tables"] += 1
+            attributed = None
+            if ta != tb and arg.get("format_code"):
+                # attribute to the first pipeline step that changes this function's table; judge the mechanism there
+                from .. import trace
+
+                if "steps" not in res:
+                    res["steps"] = trace.traced_format(src, {"safe": True})[2]
+                prev_fn, prev_t = b, tb
+                for st in res["steps"]:
+                    try:
+                        cur_fn = _functions(st["out"]).get(fname)
+                        cur_t = _table(_compile_fn(cur_fn), nv) if cur_fn is not None else None
+                    except Exception:
+                        break
+                    if cur_t != prev_t:
+                        attributed = (st["rule"], prev_fn, cur_fn)
+                        break
+                    prev_fn, prev_t = cur_fn, cur_t
+                if attributed and attributed[2] is not None:
+                    b, a = attributed[1], attributed[2]
+                    tb, ta = _table(_compile_fn(b), nv), _table(_compile_fn(a), nv)
             if ta != tb:
                 k = next(j for j in range(len(tb)) if ta[j] != tb[j])
                 vals = list(itertools.product(BOX, repeat=nv))[k]
@@ -247,8 +268,9 @@ def w_module(arg):
                             causes.add("other")
                     empty_everywhere = causes == {"empty_range"}
                     res["violations"].append({
-                        "kind": "formula_value_differs", "only_where_a_range_is_empty": empty_everywhere, "difference_causes": sorted(causes), "rule": rule, "input": f"def f(x, y, z):\n{body}",
-                        "before": f"def f(x, y, z):\n{body}", "after": ast.unparse(a),
+                        "kind": "formula_value_differs", "only_where_a_range_is_empty": empty_everywhere, "difference_causes": sorted(causes),
+                        "attributed_rule": attributed[0] if attributed else None, "rule": rule, "input": f"def f(x, y, z):\n{body}",
+                        "before": ast.unparse(b), "after": ast.unparse(a),
                         "detail": {"formula": label, "rewritten": ast.unparse(a), "valuation": dict(zip("xyz", vals)), "before": repr(tb[k]), "after": repr(ta[k]),
                                    "differing_valuations": sum(1 for j in range(len(tb)) if ta[j] != tb[j]), "valuations": len(tb)},
                         "replay": {"fn": "harness.checks.c17:w_module", "arg": {"rules": [[mod, name]], "bodies": [bodies[i]], "format_code": arg.get("format_code", False)}}})
@@ -256,6 +278,7 @@ def w_module(arg):
                     res["truncated"] = res.get("truncated", 0) + 1
             elif len(res["samples"]) < 1:
                 res["samples"].append({"rule": rule, "before": body.strip(), "after": ast.unparse(a), "valuations": len(tb)})
+    res.pop("steps", None)
     return res
 
 
@@ -279,8 +302,8 @@ def main() -> int:
     formulas = list(two_atom_formulas(["x"], range(0, 6) if thorough else range(0, 4)))
     n_two = len(formulas)
     two_var = list(two_atom_formulas(["x", "y"], range(0, 3)))
-    formulas += two_var if thorough else r.sample(two_var, 2500)
-    formulas += random_formulas(30000 if thorough else 3000, "rand")
+    formulas += r.sample(two_var, 8000 if thorough else 2500)
+    formulas += random_formulas(8000 if thorough else 3000, "rand")
     tasks = []
 
     def add(bodies, rules, size=20, **kw):
